@@ -401,6 +401,7 @@ type checker struct {
 	outcomes *mc.Set
 	classes  *mc.Set
 	samples  *mc.Samples
+	sampled  mc.Set
 	verbose  bool
 	hmu      sync.Mutex
 	hist     map[string]int
@@ -695,8 +696,8 @@ func (ck *checker) check(w *worker, c Case) {
 	}
 	atomic.AddInt64(&ck.st.completed, 1)
 	if !failed {
-		if ck.distinct.Add(c.String()) {
-			ck.samples.Add(c.String())
+		if ck.distinct.Add(c.String()) && ck.sampled.Add(c.Change+c.NewTag) {
+			ck.samples.Add(c.String()) // one sample per kind of change
 		}
 	}
 }
@@ -910,7 +911,7 @@ func main() {
 		tier = "replay" // keeps the files written while replaying apart from the recorded ones
 	}
 	run := mc.NewRun("C20", tier, "exploration")
-	ck := &checker{run: run, st: &stats{}, distinct: &mc.Set{}, outcomes: &mc.Set{}, classes: &mc.Set{}, samples: &mc.Samples{N: 8}}
+	ck := &checker{run: run, st: &stats{}, distinct: &mc.Set{}, outcomes: &mc.Set{}, classes: &mc.Set{}, samples: &mc.Samples{N: 16}}
 	if args.Replay != "" {
 		var c Case
 		if err := mc.LoadReplay(args.Replay, &c); err != nil {
